@@ -164,7 +164,11 @@ func c17Run(c c17Case) Outcome {
 		}
 		resps[fmt.Sprintf("t%d", i)] = rs
 	}
-	h := peer.StartRaw(peer.Config{MaxConcurrentStreams: 100, MaxRequestBodySize: 1 << 20, Responses: resps, DefaultResp: peer.Resp{Status: 200}, Tracker: c17Tracker})
+	maxStreams := 100
+	if len(c.Reqs) > 90 {
+		maxStreams = 1024 // the "many handlers" cases
+	}
+	h := peer.StartRaw(peer.Config{MaxConcurrentStreams: maxStreams, MaxRequestBodySize: 1 << 20, Responses: resps, DefaultResp: peer.Resp{Status: 200}, Tracker: c17Tracker})
 	defer h.Close()
 	if c17Tracker != nil {
 		c17Tracker.Take()
@@ -248,6 +252,25 @@ func c17Run(c c17Case) Outcome {
 	if left := check(false); left != "" {
 		return fail("goroutine-left", "%s: all handlers released but a goroutine of the connection is still there:\n%s", desc, left)
 	}
+	// handler goroutines do not carry the connection's address in their
+	// stacks: once every handler has been released none may remain in the
+	// process (cases run one after the other, each ending with this check)
+	for try := 0; ; try++ {
+		left, n := "", 0
+		for _, g := range peer.LibraryGoroutines() {
+			if strings.Contains(g, ").dispatchHandler") {
+				left = firstLines(g, 12)
+				n++
+			}
+		}
+		if n == 0 {
+			break
+		}
+		if try > 400 {
+			return fail("handler-goroutine-left", "%s: the peer is gone, ServeConn has returned and every handler has been released (%d were running at the disconnect), but %d handler goroutines are still there, e.g.:\n%s", desc, parkedNow, n, left)
+		}
+		time.Sleep(5 * time.Millisecond)
+	}
 	if c17Tracker != nil {
 		if v := c17Tracker.Take(); len(v) > 0 {
 			c17Tracker.Heal()
@@ -272,6 +295,9 @@ func c17Run(c c17Case) Outcome {
 	}
 	if len(c.Muts) > 0 {
 		cls = append(cls, "mutated")
+	}
+	if parkedNow > 128 {
+		cls = append(cls, "over-128-handlers-at-disconnect")
 	}
 	if c.NoRead {
 		cls = append(cls, "noread")
@@ -305,6 +331,14 @@ func c17Gen(t *rapid.T) c17Case {
 		}
 		c.Reqs = append(c.Reqs, r)
 	}
+	if rapid.IntRange(0, 39).Draw(t, "many") == 0 {
+		// many handlers in flight at the disconnect (more than the 128 any
+		// internal queue holds)
+		c.Reqs = nil
+		for i := rapid.SampledFrom([]int{100, 129, 130, 200, 400}).Draw(t, "nmany"); i > 0; i-- {
+			c.Reqs = append(c.Reqs, c17Req{Gate: true})
+		}
+	}
 	c.CutAt = rapid.OneOf(rapid.Just(-1), rapid.IntRange(0, 100000)).Draw(t, "cut")
 	nm := rapid.SampledFrom([]int{0, 0, 1, 2, 4}).Draw(t, "nmut")
 	for i := 0; i < nm; i++ {
@@ -332,7 +366,7 @@ func c17Gen(t *rapid.T) c17Case {
 
 func TestC17(t *testing.T) {
 	s := newSuite(t, "C17",
-		"a recorded well-formed client byte stream (1..4 requests with bodies up to 40000, split header blocks, padding, trailers, DATA chunking; built offline with the reference HPACK encoder), then: delivered up to a generated cut offset (any byte, incl. inside a frame header, a header block or a body) or entirely; 0..4 structure-aware mutations (frame duplicate / delete / swap / bit flip / lying length / type, flags or stream-id change / inserted RST_STREAM, WINDOW_UPDATE, SETTINGS, PING, GOAWAY, PRIORITY, CONTINUATION, DATA); optional frame soup appended; the peer never reading (bounded queue) or the server's writes failing from a generated octet on; the connection then ends with EOF or a reset; handlers of some requests parked and released before or after the disconnect; responses of 0..200000 octets buffered or streamed. Oracle: the server's logger never says 'panicked'/'panic in' (recovered panics count), the process survives, ServeConn returns within 6 s of the peer being gone, afterwards only handler goroutines the harness still holds remain and none after release, the pool observer sees no double release and no RequestCtx returned while its handler is inside. Non-trivial = cut inside a frame, or disconnect with a handler running; distinct by case hash.")
+		"a recorded well-formed client byte stream (1..4 requests, or 100..400 bodiless ones with parked handlers, with bodies up to 40000, split header blocks, padding, trailers, DATA chunking; built offline with the reference HPACK encoder), then: delivered up to a generated cut offset (any byte, incl. inside a frame header, a header block or a body) or entirely; 0..4 structure-aware mutations (frame duplicate / delete / swap / bit flip / lying length / type, flags or stream-id change / inserted RST_STREAM, WINDOW_UPDATE, SETTINGS, PING, GOAWAY, PRIORITY, CONTINUATION, DATA); optional frame soup appended; the peer never reading (bounded queue) or the server's writes failing from a generated octet on; the connection then ends with EOF or a reset; handlers of some requests parked and released before or after the disconnect; responses of 0..200000 octets buffered or streamed. Oracle: the server's logger never says 'panicked'/'panic in' (recovered panics count), the process survives, ServeConn returns within 6 s of the peer being gone, afterwards only handler goroutines the harness still holds remain and none after release (connection goroutines by the serverConn address in the dump, handler goroutines by dispatchHandler frames anywhere in the process), the pool observer sees no double release and no RequestCtx returned while its handler is inside. Non-trivial = cut inside a frame, or disconnect with a handler running; distinct by case hash.")
 	defer s.finish()
 	c17Tracker = pooltrack.Start(false)
 	defer func() { pooltrack.Stop(); c17Tracker = nil }()
